@@ -183,7 +183,7 @@ class World:
             # the port was picked by bind(0)/close: another process may have taken it in between, in which case our
             # pgcat fails to bind and what answered the probe connection was somebody else.  Our own process records
             # the probe connection in its hook trace.
-            deadline = time.time() + 2.0
+            deadline = time.time() + 6.0
             ours = False
             while time.time() < deadline:
                 if self.proc.poll() is not None:
